@@ -387,7 +387,20 @@ func render(o object.PanObject, depth int, detail bool) string {
 			kind = "iter"
 		}
 		if detail {
-			return "<" + kind + " " + v.Inspect() + ">"
+			out := "<" + kind + " " + v.Inspect() + ">"
+			// the function's own frame (what its literal's scope holds besides the enclosing scopes): calls bind their arguments in
+			// a copy, so for a plain function it never changes; an iterator's frame is the state next / recur advance
+			if v.FuncKind != object.IterFunc && v.Env != nil {
+				if items, ok := v.Env.Items().(*object.PanObj); ok && items.Pairs != nil {
+					var all []string
+					for _, p := range *items.Pairs {
+						all = append(all, keyText(p.Key)+": "+rec(p.Value, depth+3))
+					}
+					sort.Strings(all)
+					out += "|frame{" + strings.Join(all, ", ") + "}"
+				}
+			}
+			return out
 		}
 		return "<" + kind + ">"
 	case *object.PanErrWrapper:
